@@ -60,7 +60,10 @@ def _set_progress(r, busy, doing, que):
             f'x.wait{i}', attrib={'status': State.waiting, 'doing': set(),
                                   'todo': dawgie.util.fifo.Unique(['T']),
                                   'do': set(), 'level': 0}))
-    r.sched.que[:] = nodes
+    if (busy + doing + que) % 2:
+        r.sched.que[:] = nodes  # in place, as complete() / defer() do
+    else:
+        r.sched.que = nodes  # a new list, as organize() / build() do
 
 
 def _condition(r, rank):
